@@ -3,12 +3,13 @@
    (gen/T2_*.v, tools/translate/t2.py) by rewriting through the bridge lemmas of proofs/bridge/.
    If the Python source of one of these functions changes its meaning, its bridge lemma (and the
    corollary below) stops compiling. *)
-From RichModel Require Import Prelude Cells Ratio T2Lib Frames.
-From RichGen Require Import CellWidthTable T2_Ratio T2_Cells T2_Measure.
-From RichProofs Require Import CellsP.
-From RichProofs.bridge Require Import BridgeLib BridgeRatio BridgeCells BridgeMeasure.
-From RichProps Require C07 C13 C09.
-Import RichModel.SpecTable RichModel.SpecCells.
+From RichModel Require Import Prelude Cells Ratio T2Lib Frames Segments Color Progress.
+From RichGen Require Import CellWidthTable T2_Ratio T2_Cells T2_Measure T2_Segment T2_Color T2_Progress T2_Bar T2_ProgressBar.
+From RichProofs Require Import CellsP FramesP.
+From RichProofs.bridge Require Import BridgeLib BridgeRatio BridgeCells BridgeMeasure BridgeSegment BridgeColor
+  BridgeProgress BridgeBar BridgeProgressBar.
+From RichProps Require C07 C13 C09 C18 C12 C08.
+Import RichModel.SpecTable RichModel.SpecCells RichModel.SpecColor RichModel.SpecProgress RichModel.SpecFrames.
 
 (* ---- C07: the ratio kernels and Table._collapse_widths, as found in the source today ---- *)
 Theorem T2_ratio_distribute_sum : forall total ratios,
@@ -126,3 +127,47 @@ Theorem T2_get_normalised : forall (c : child) w, 0 <= w ->
   0 <= fst m /\ fst m <= snd m /\ snd m <= w.
 Proof. intros c w Hw. cbv zeta. rewrite <- T2_measurement_get. now apply C09.C09_get_normalised_any_child. Qed.
 Print Assumptions T2_get_normalised.
+
+(* ---- round 2: C13 line shaping, C18 SGR parameters, C12 percentage, C08 bars ---- *)
+Theorem T2_adjust_line_length_spec : forall fuel (line : list (seg Z)) n style pad,
+  (S (length CELL_WIDTHS) <= fuel)%nat -> Forall (fun g => (length (txt g) < fuel)%nat) line -> 0 <= n ->
+  exists out, adjust_line_length_gen fuel cell_len (map seg_t line) n style pad = Ok (map seg_t out) /\
+              adjust_ok_b line n style pad out = true.
+Proof.
+  intros fuel line n style pad Hf Hl Hn. rewrite adjust_line_length_gen_eq_hand by assumption.
+  eexists; split; [reflexivity|]. now apply C13.C13_adjust_line_length_spec.
+Qed.
+Print Assumptions T2_adjust_line_length_spec.
+
+Theorem T2_ansi_codes_standard : forall c fg, wf_color_b c = true ->
+  exists codes, get_ansi_codes_gen (ColorType_int (c_type c)) (c_number c)
+                  (option_map triplet_tuple (c_triplet c)) fg = Ok codes /\ codes_ok_b c fg codes = true.
+Proof. intros c fg H. rewrite get_ansi_codes_gen_eq_hand. now apply C18.C18_ansi_codes_standard. Qed.
+Print Assumptions T2_ansi_codes_standard.
+
+Theorem T2_percentage_clamped : forall t,
+  exists p, percentage_gen (t_total t) (t_completed t) = Ok p /\ pct_ok_b (QArith_base.Qmake 0 1) (t_completed t) (t_total t) p = true.
+Proof. intro t. rewrite percentage_gen_eq_hand. eexists; split; [reflexivity|]. apply C12.C12_percentage_clamped. Qed.
+Print Assumptions T2_percentage_clamped.
+
+Theorem T2_bar_exact : forall size b e bw st W, 0 < size -> 0 <= W ->
+  match bw with Some x => 0 <= x | None => True end ->
+  exists text, bar_console_gen bw (Z.max b 0) (Z.min e size) size st W = Ok [(text, st, false); ([10], None, false)] /\
+               bar_within_b (bar_width bw W) true text = true.
+Proof.
+  intros size b e bw st W Hs HW Hbw. rewrite bar_console_gen_eq_hand by exact Hs.
+  eexists; split; [reflexivity|]. now apply C08.C08_bar_exact.
+Qed.
+Print Assumptions T2_bar_exact.
+
+Theorem T2_pbar_within : forall rp gs pw total completed st cst fst_ W lw ao no_color cs, 0 <= W ->
+  match pw with Some x => 0 <= x | None => True end ->
+  exists out, pbar_console_gen rp gs pw false total completed st cst fst_ W lw ao no_color cs = Ok out /\
+    bar_within_b (bar_width pw W) ((match cs with Some _ => true | None => false end) && negb no_color)
+                 (concat (map seg_text out)) = true.
+Proof.
+  intros rp gs pw total completed st cst fst_ W lw ao no_color cs HW Hpw.
+  destruct (pbar_console_gen_eq_hand rp gs pw total completed st cst fst_ W lw ao no_color cs 0) as (out & H1 & H2).
+  exists out. split; [exact H1|]. rewrite H2. now apply C08.C08_pbar_within.
+Qed.
+Print Assumptions T2_pbar_within.
